@@ -6,7 +6,7 @@
 (* st \in {"Set","Del","Ttl"}; ts = tick at which the status was created   *)
 (* (0 for "Set").  The empty value is the empty string.                    *)
 (***************************************************************************)
-EXTENDS Naturals, Sequences, FiniteSets, TLC
+EXTENDS Integers, Sequences, FiniteSets, TLC
 
 MaxOf(S) == CHOOSE x \in S : \A y \in S : y <= x
 MinOf(S) == CHOOSE x \in S : \A y \in S : x <= y
